@@ -72,6 +72,9 @@ pub struct GenCfg {
     pub p_sink_fail: u32,
     /// per cent of serde restarts with disk faults
     pub p_io_faults: u32,
+    /// forest shape bias: 0 none, 1 wide (one hub gets most children), 2 deep (children go under
+    /// the deepest node), 3 chain (long top-level sibling chains)
+    pub shape: u8,
     pub exec: ExecCfg,
 }
 
@@ -82,10 +85,23 @@ fn rel_index(r: Rel) -> usize {
 impl GenCfg {
     pub fn draw(rng: &mut Rng, prop: &str) -> GenCfg {
         // ---- scope: small scopes find bugs; half of all runs have <= 6 live nodes
-        let (max_live, steps) = match rng.below(10) {
+        let (mut max_live, mut steps) = match rng.below(10) {
             0..=4 => (rng.range(2, 6) as usize, if rng.coin() { rng.range(1, 8) } else { rng.range(9, 40) } as usize),
             5..=7 => (rng.range(7, 20) as usize, rng.range(9, 60) as usize),
             _ => (rng.range(21, 60) as usize, rng.range(41, 200) as usize),
+        };
+        // one run in a hundred is large: thresholds on width, depth, node count, free-list length
+        let huge = rng.chance(1, 100);
+        if huge {
+            max_live = rng.range(80, 300) as usize;
+            steps = rng.range(300, 1200) as usize;
+        }
+        // shape bias: random attachment alone almost never gives a node 10 children or depth 10
+        let shape = match rng.below(10) {
+            0 | 1 => 1u8,
+            2 | 3 => 2,
+            4 => 3,
+            _ => 0,
         };
         let mut w = [0u32; NK];
         let base: [(K, u32); NK] = [
@@ -118,7 +134,7 @@ impl GenCfg {
         let mut p_boundary = 0;
         let mut p_sink_fail = 0;
         let mut p_io_faults = 0;
-        let mut payload = *rng.pick(&["tracked", "tracked", "u8", "wide", "string"]);
+        let mut payload = *rng.pick(&["tracked", "tracked", "tracked", "u8", "wide", "string", "unit", "big"]);
         let mut twin = false;
         let mut dense = false;
         let set = |w: &mut [u32; NK], k: K, v: u32| w[k as usize] = v;
@@ -190,7 +206,7 @@ impl GenCfg {
                 set(&mut w, K::ObsLookup, 10);
                 set(&mut w, K::Reserve, 3);
                 dense = rng.chance(1, 3);
-                payload = *rng.pick(&["tracked", "u8", "wide", "string"]);
+                payload = *rng.pick(&["tracked", "u8", "wide", "string", "unit", "big"]);
             }
             "C12" => {
                 set(&mut w, K::Remove, 14);
@@ -284,6 +300,7 @@ impl GenCfg {
             p_boundary,
             p_sink_fail,
             p_io_faults,
+            shape,
             exec: ExecCfg {
                 payload: payload.to_string(),
                 capacity,
@@ -324,6 +341,19 @@ impl Gen {
             return None;
         }
         Some(*rng.pick(&live))
+    }
+
+    /// wide: the live node with most children; deep: the deepest live node (3 times out of 4)
+    fn shaped_parent(&self, rng: &mut Rng, m: &Model) -> Option<Key> {
+        if m.n_live == 0 || !(self.cfg.shape == 1 || self.cfg.shape == 2) || !rng.chance(3, 4) {
+            return None;
+        }
+        let live = m.live_keys();
+        if self.cfg.shape == 1 {
+            live.iter().copied().max_by_key(|k| (m.n(*k).kids.len(), u32::MAX - *k))
+        } else {
+            live.iter().copied().max_by_key(|k| (m.depth(*k), *k))
+        }
     }
 
     fn pick_pair(&self, rng: &mut Rng, m: &Model) -> Option<(Key, Key)> {
@@ -421,12 +451,39 @@ impl Gen {
         match kind {
             K::New => Op::New { k: self.key(), val },
             K::AppendValue => {
-                let p = self.pick_node(rng, m, true).unwrap();
+                let p = match self.shaped_parent(rng, m) {
+                    Some(p) => p,
+                    None => self.pick_node(rng, m, true).unwrap(),
+                };
                 Op::AppendValue {
                     p,
                     k: self.key(),
                     val,
                     slow: rng.chance(1, 3),
+                }
+            }
+            K::Insert if self.cfg.shape == 3 && rng.coin() && m.n_live >= 2 => {
+                // grow top-level sibling chains: a parentless target, insert_after / insert_before
+                let live = m.live_keys();
+                let roots: Vec<Key> = live.iter().copied().filter(|k| m.parent(*k).is_none()).collect();
+                let a = *rng.pick(&roots);
+                let b = *rng.pick(&live);
+                Op::Insert {
+                    kind: if rng.coin() { Kind::After } else { Kind::Before },
+                    checked: rng.chance(self.cfg.p_checked as u64, 100),
+                    a,
+                    b,
+                }
+            }
+            K::Insert if (self.cfg.shape == 1 || self.cfg.shape == 2) && rng.chance(1, 3) && m.n_live >= 2 => {
+                // move something under the hub / the deepest node
+                let a = self.shaped_parent(rng, m).unwrap_or_else(|| *rng.pick(&m.live_keys()));
+                let b = *rng.pick(&m.live_keys());
+                Op::Insert {
+                    kind: if rng.coin() { Kind::Append } else { Kind::Prepend },
+                    checked: rng.chance(self.cfg.p_checked as u64, 100),
+                    a,
+                    b,
                 }
             }
             K::Insert => match self.pick_pair(rng, m) {
